@@ -27,7 +27,7 @@ def _avg(uops):
     return p
 
 
-def _x86_case(role, shape, row_present, typed_row, vec, nums, mult_present, suffix=False):
+def _x86_case(role, shape, row_present, typed_row, vec, nums, mult_present, suffix=False, other_only=False):
     (c_reg, tp_reg, lat_reg, c_ld, c_ldt, c_lddef, c_st, c_stt, c_stdef, L, m_ld, m_st) = nums
     rt = "xmm" if vec else "gpr"
     other = "gpr" if vec else "xmm"
@@ -54,9 +54,10 @@ def _x86_case(role, shape, row_present, typed_row, vec, nums, mult_present, suff
     if row_present:
         if typed_row:
             ld_rows.append((MemoryOperand(dst=other, **row_shape), [[c_ld + 3, "23"]]))
-            ld_rows.append((MemoryOperand(dst=rt, **row_shape), [[c_ldt, "2"]]))
             st_rows.append((MemoryOperand(src=other, **row_shape), [[c_st + 3, "3"]]))
-            st_rows.append((MemoryOperand(src=rt, **row_shape), [[c_stt, "3"]]))
+            if not other_only:
+                ld_rows.append((MemoryOperand(dst=rt, **row_shape), [[c_ldt, "2"]]))
+                st_rows.append((MemoryOperand(src=rt, **row_shape), [[c_stt, "3"]]))
         else:
             ld_rows.append((MemoryOperand(dst=None, **row_shape), [[c_ld, "23"]]))
             st_rows.append((MemoryOperand(src=None, **row_shape), [[c_st, "3"]]))
@@ -95,6 +96,11 @@ def _x86_case(role, shape, row_present, typed_row, vec, nums, mult_present, suff
         ld_u = ([[c_ldt, "2"]] if typed_row else [[c_ld, "23"]]) if row_present else [[c_lddef, "23"]]
     if has_st:
         st_u = ([[c_stt, "3"]] if typed_row else [[c_st, "3"]]) if row_present else [[c_stdef, "3"]]
+        if other_only:
+            # the store table only has rows for ANOTHER register type: none applies, the default does
+            st_u = [[c_stdef, "3"]]
+    if other_only and has_ld:
+        return None        # loads: which row applies when only other-typed rows exist is not determined by the statement
     ml = m_ld if mult_present else 1
     ms = m_st if mult_present else 1
     p_reg, p_ld, p_st = _avg(reg_uops), _avg(ld_u), _avg(st_u)
@@ -145,6 +151,9 @@ def x86_compose(role: int, shape: int, row_present: bool, typed_row: bool, vec: 
         c_lddef, c_stdef = c_sel_ld, c_sel_st
         c_ld, c_st, c_ldt, c_stt = 11.0, 13.0, 17.0, 19.0
     ok = _x86_case(ro, sh, rp, tr, ve, (c_reg, tp_reg, lat_reg, c_ld, c_ldt, c_lddef, c_st, c_stt, c_stdef, L, m_ld, m_st), mp, True if suffix else False)
+    if ok and ro == 1 and rp and tr and not suffix:
+        # same store with a table that only declares rows for the other register type
+        ok = _x86_case(ro, sh, rp, tr, ve, (c_reg, tp_reg, lat_reg, 11.0, 17.0, 23.0, 13.0, 19.0, c_sel_st, L, m_ld, m_st), mp, False, other_only=True)
     return verdict(ok, nontrivial=True, sample=lambda: {"suffix": suffix, "role": ["load", "store", "rmw"][ro], "shape": sh, "row_present": rp, "typed_row": tr, "vec": ve,
                                                        "mult": mp, "c_reg": c_reg, "tp_reg": tp_reg, "lat_reg": lat_reg, "c_ld": c_ld, "L": L})
 
